@@ -153,12 +153,13 @@ def r4(cx, ast):
     pj = [l for l in lets.get("parms", []) + [e["text"].replace(" ", "") for e in f.events if e["k"] == "assign" and e.get("lhs", "").strip() == "parms"]]
     okp = any("Some(serde_json::to_value(#args_name{#(#innames2),*})" in p for p in pj) and any(p == "quote!(None)" for p in pj)
     cx.check(okp, "C08.R4", "gen:error-parameters", GEN, "error parameters are not serialised from <Error>_Args{..} (or None when the error has none): %s" % pj, note_ok="Some(to_value(<Error>_Args{..})) | None")
-    # the library-side mapping of standard errors uses exact names too (shared with C07.R6)
-    LIB = "varlink/src/lib.rs"
-    fr = ast.fn(LIB, "from", self_ty="ErrorKind", trait="From<Reply>")
-    guards = [e["guard"].strip() for e in fr.events if e["k"] == "arm" and e.get("guard")]
-    badg = [g for g in guards if not re.fullmatch(r't == "org\.varlink\.service\.\w+"', g)]
-    cx.check(len(guards) == 4 and not badg, "C08.R4", "varlink:From<Reply>:exact-names", LIB, "the runtime classifies reply errors with %s: an error declared in an IDL could be taken for a standard one and lose its variant" % badg, note_ok="4 guards, exact full names")
+    # the library-side mapping of standard errors uses exact names too (shared with C07.R6, decided on the MIR)
+    from .C07 import _name_tests, STD_ERRORS
+    fr = cx.mir.one("varlink", "<impl std::convert::From<Reply> for error::ErrorKind>::from")
+    tests, fuzzy, _ = _name_tests(fr, Cfg(fr), DefUse(fr))
+    cx.check(sorted(tests) == sorted(STD_ERRORS) and not fuzzy, "C08.R4", "varlink:From<Reply>:exact-names", fr.sp,
+             "the runtime classifies reply errors with %s%s: an error declared in an IDL could be taken for a standard one and lose its variant" % (sorted(tests), " and %s" % sorted({t.callee.name for t in fuzzy}) if fuzzy else ""),
+             note_ok="four equality tests against full literal names")
 
 
 def r5(cx, ast, rule="C08.R5"):
